@@ -189,6 +189,11 @@ def corruptions(e):
         mk(lambda c: c.__setitem__("iv", _pert(c["iv"], factor=1 - 1e-6)), ["surface_t_p"])
         if float(undy(e["d0"][1])) > 0.2:
             mk(lambda c: c.__setitem__("ih", c["iv"]), ["surface_t_s"])       # s and p interchanged
+    elif t == "inlens":
+        mk(lambda c: c.__setitem__("ipass", c["iblock"]), ["element_passes_stated_state"])     # handedness interchanged
+        mk(lambda c: c.__setitem__("iblock", _pert(c["iblock"], delta=1e-6)), ["element_blocks_orthogonal_state"])
+        mk(lambda c: c.__setitem__("iunpol", _pert(c["iunpol"], factor=1 + 1e-6)), ["unpolarized_mean"])
+        mk(lambda c: c.__setitem__("itwice", _pert(c["itwice"], factor=1 - 1e-6)), ["element_idempotent_in_trace"])
     elif t == "unpol":
         mk(lambda c: c.__setitem__("iu", _pert(c["iu"], factor=1 + 1e-6)), ["unpolarized_mean"])
         mk(lambda c: c.__setitem__("sb", copy.deepcopy(c["sa"])), ["certificate"])
@@ -241,6 +246,7 @@ def main(ctx):
     with ProcessPoolExecutor(max_workers=16) as ex:
         lres = list(ex.map(R.lens_job, jobs, chunksize=2))
         lres += list(ex.map(R.surface_job, sjobs, chunksize=4))
+        lres += list(ex.map(R.inlens_job, [(ctx.seed * 1299709 + i,) for i in range(24 if quick else 600)], chunksize=4))
     lev, ntraces, nlens = [], 0, 0
     for res in lres:
         if res.get("error"):
@@ -293,8 +299,13 @@ def main(ctx):
     ctx.extra["events"] = len(events)
     ctx.extra["events_by_kind"] = kinds
     ctx.extra["lenses"] = nlens - len([x for x in lres[len(jobs):] if not x.get("error")])
-    ctx.extra["single_surface_systems"] = len([x for x in lres[len(jobs):] if not x.get("error")])
+    ctx.extra["single_surface_systems"] = len([x for x in lres[len(jobs):len(jobs) + len(sjobs)] if not x.get("error")])
+    ctx.extra["polarizers_inside_a_lens"] = len([x for x in lres[len(jobs) + len(sjobs):] if not x.get("error")])
     ctx.extra["observations_outside_the_property"] = [
+        "a Jones element handed to PolarizedRays.update acts in the local s/p frame of each ray at each surface: for an "
+        "undeviated ray s = k x x^ (the y axis on axis), for a deviated one the normal of its plane of incidence - a "
+        "JonesPolarizerH used as the coating of a plane window at normal incidence blocks the H state (Ex) and passes V; "
+        "only frame-independent elements (circular polarizers) are judged inside a lens",
         "reflection: JonesFresnel returns diag(r_s, -r_p, -1) in the (s, k x s) bases of PolarizedRays.update, i.e. at "
         "normal incidence x- and y-polarized light are reflected with opposite signs (P = diag(0.2, -0.2, 1) for "
         "n = 1 -> 1.5); |r|^2 is right, the relative phase of s and p is off by pi (pinned by tests/test_jones.py)",
